@@ -154,13 +154,8 @@ Proof.
   vm_compute in H. discriminate.
 Qed.
 
-(* an invented condition: a stale Set re-establishes a bit that a concurrent Clear... (mixed witness) *)
 Theorem loadstore_mixed_refuted : ~ no_lost_update_statement ShLoadStore ShLoadStore.
 Proof. apply loadstore_set_refuted. Qed.
-
-(* strongest true restriction for ANY shape: schedules that run each operation to completion without
-   another thread stepping in between are correct; stated for one thread (no concurrency at all) *)
-(* (kept small: the repaired code makes the full theorem hold) *)
 
 (* ---------- Health() is true exactly when no condition is set ---------- *)
 Theorem health_iff_no_flag : forall w, health w = true <-> (forall n, N.testbit w n = false).
@@ -202,4 +197,15 @@ Proof.
       specialize (Hx _ Hge). rewrite N.bit_log2 in Hx by auto. discriminate. }
   rewrite Hb in *. intros n Hn. specialize (Hw n Hn). specialize (Hm n Hn).
   destruct o; cbn [apply_op hmask] in *; rewrite ?N.lor_spec, ?N.ldiff_spec, Hw, ?Hm; auto.
+Qed.
+
+Theorem no_invented_condition : forall ss sc, atomic_shape ss = true -> atomic_shape sc = true ->
+  forall progs, cross_disjoint progs -> forall sched w0 n,
+  all_done (fst (hrun ss sc sched progs w0)) = true ->
+  (forall o, In o (concat progs) -> N.testbit (hmask o) n = false) ->
+  N.testbit (snd (hrun ss sc sched progs w0)) n = N.testbit w0 n.
+Proof.
+  intros ss sc Hss Hsc progs Hdis sched w0 n Hdone Hn.
+  rewrite (no_lost_update ss sc Hss Hsc progs Hdis sched w0 Hdone).
+  apply apply_all_untouched; auto.
 Qed.
